@@ -717,7 +717,10 @@ func MergeRows(_ interface{},
 	}
 
 	if res.Deleted {
-		return &res
+		// Keep column writes that are newer than the delete: an INSERT that
+		// is merged later may be older than them, and they must then win over
+		// the INSERT's values whatever the merge order. Older ones are dead.
+		resetValuesBefore = outTime.Add(res.DeleteUpdateOffset.AsDuration())
 	}
 
 	allKeys := make(map[string]struct{})
